@@ -48,7 +48,7 @@ def make_settings(d, kind):
     return f"pre_{kind}.json", f"pro_{kind}.json"
 
 
-def library_pipeline(d, fname, pre_file, pro_file, out_name):
+def library_pipeline(d, fname, pre_file, pro_file, out_name, dmc="lognormal"):
     """read, preprocess, process, write for this file alone, settings freshly loaded, in a fresh interpreter"""
     code = ("import hvsrpy, sys\n"
             "from hvsrpy.object_io import read_settings_object_from_file as rs\n"
@@ -56,7 +56,7 @@ def library_pipeline(d, fname, pre_file, pro_file, out_name):
             f"rec = hvsrpy.read([[{fname!r}]])\n"
             "rec = hvsrpy.preprocess(rec, pre)\n"
             "h = hvsrpy.process(rec, pro)\n"
-            f"hvsrpy.write_hvsr_object_to_file(h, {out_name!r}, distribution_mc='lognormal', distribution_fn='lognormal')\n")
+            f"hvsrpy.write_hvsr_object_to_file(h, {out_name!r}, distribution_mc={dmc!r}, distribution_fn='lognormal')\n")
     p = subprocess.run([sys.executable, "-W", "ignore", "-c", code], cwd=d, capture_output=True, text=True, env=os.environ)
     if p.returncode:
         raise RuntimeError("library pipeline failed: " + p.stderr[-800:])
@@ -71,16 +71,18 @@ def cli_clause(cl, rng, n, replay):
         for kind in ("hvsr-filter", "psd-diff", "hvsr-fft"):
             for order in itertools.permutations(range(3)):
                 for nproc in (1, 2, 3):
-                    configs.append((kind, order, nproc))
+                    configs.append((kind, order, nproc, "lognormal"))
+        configs += [("hvsr-filter", order, 2, "normal") for order in itertools.permutations(range(3))]       # --distribution_mc differs from --distribution_fn
         # quick: the chunk-sharing schedules first (one worker: every file in one chunk, the long fast file first / last)
-        first = [("hvsr-filter", (0, 1, 2), 1), ("psd-diff", (0, 1, 2), 1), ("hvsr-fft", (0, 1, 2), 1), ("hvsr-filter", (1, 0, 2), 2), ("psd-diff", (2, 1, 0), 3)]
+        first = [("hvsr-filter", (0, 1, 2), 1, "lognormal"), ("psd-diff", (0, 1, 2), 1, "lognormal"), ("hvsr-fft", (0, 1, 2), 1, "lognormal"),
+                 ("hvsr-filter", (1, 0, 2), 2, "normal"), ("psd-diff", (2, 1, 0), 3, "lognormal")]
         configs = first + [c for c in configs if c not in first]
         refs = {}
-        for kind, order, nproc in configs[:n]:
+        for kind, order, nproc, dmc in configs[:n]:
             pre, pro = make_settings(d, kind)
             for f in names:
-                if (kind, f) not in refs:
-                    refs[(kind, f)] = library_pipeline(d, f, pre, pro, f"ref_{kind}_{os.path.splitext(f)[0]}.csv")
+                if (kind, f, dmc) not in refs:
+                    refs[(kind, f, dmc)] = library_pipeline(d, f, pre, pro, f"ref_{kind}_{dmc}_{os.path.splitext(f)[0]}.csv", dmc)
             for f in names:
                 p = os.path.join(d, os.path.splitext(f)[0] + ".csv")
                 if os.path.exists(p):
@@ -88,9 +90,9 @@ def cli_clause(cl, rng, n, replay):
             args = [names[o] for o in order]
             code = "from hvsrpy.cli import cli; cli()"
             p = subprocess.run([sys.executable, "-W", "ignore", "-c", code] + args + ["--preprocessing_settings_file", pre, "--processing_settings_file", pro,
-                                                                                       "--no_figure", "--nproc", str(nproc)],
+                                                                                       "--no_figure", "--nproc", str(nproc), "--distribution_mc", dmc, "--distribution_fn", "lognormal"],
                                cwd=d, capture_output=True, text=True, env=os.environ, timeout=600)
-            cl.case((kind, order, nproc))
+            cl.case((kind, order, nproc, dmc))
             if p.returncode:
                 cl.fail("hvsrpy.cli.cli", f"command line run failed (order {order}, --nproc {nproc}): {p.stderr[-600:]}", signature="cli:exit")
                 return
@@ -100,7 +102,7 @@ def cli_clause(cl, rng, n, replay):
                     cl.fail("hvsrpy.cli._process_hvsr", f"no output for {f}", signature="cli:missing")
                     return
                 got = open(outp, "rb").read()
-                if got != refs[(kind, f)]:
+                if got != refs[(kind, f, dmc)]:
                     cl.fail("hvsrpy.cli._process_hvsr", f"{kind}: output for {f} in batch order {[names[o] for o in order]} with --nproc {nproc} differs from the single-file "
                             "pipeline with freshly loaded settings", signature="cli:batch-dependence", order=order, nproc=nproc, settings=kind)
                     return
@@ -111,7 +113,7 @@ def cli_clause(cl, rng, n, replay):
 
 CLAUSES = [
     ("bounded:CLI output per file == read/preprocess/process/write for that file alone (orders x --nproc x three settings families)", "bounded",
-     "3 miniSEED files of 150 s (500, 100, 200 Hz); 2 s windows, and 70 s windows for the family with an fft_settings dictionary; quick 5 schedules (single-chunk first), thorough all 54", "hvsrpy.cli._process_hvsr", (5, 54), cli_clause),
+     "3 miniSEED files of 150 s (500, 100, 200 Hz); 2 s windows, and 70 s windows for the family with an fft_settings dictionary; quick 5 schedules (single-chunk first), thorough all 60", "hvsrpy.cli._process_hvsr", (5, 60), cli_clause),
 ]
 
 if __name__ == "__main__":
